@@ -767,8 +767,8 @@ def rewrite_sig(sigtext, rules_log, ret_name=None):
             x = toks[i].text
             if x in ("(", "["): depth += 1
             elif x in (")", "]"): depth -= 1
-            elif x == "->" and depth == 0:
-                arrow = i
+            elif x == "->" and depth == 0 and arrow is None:
+                arrow = i      # the function's own arrow comes first; later ones belong to `Fn(..) -> T` bounds
         if arrow is not None:
             # return type runs to `where` at angle-depth 0 or to end
             j = arrow + 1
